@@ -422,6 +422,13 @@ func (e *Exec) one(slice, db, sql string) (*mysql.Result, error) {
 	if err != nil {
 		return nil, fmt.Errorf("backend %s/%s: %v (sql: %s)", slice, db, err, sql)
 	}
+	if res.Resultset == nil {
+		// an OK answer reaches the merger in an object of the result pool whose header
+		// fields the connection overwrites (DirectConnection.handleOKPacket)
+		r := mysql.ResultPool.GetWithoutResultSet()
+		r.AffectedRows, r.InsertID, r.Status, r.Warnings, r.Info = res.AffectedRows, res.InsertID, res.Status, 0, ""
+		res = r
+	}
 	c := Call{Slice: slice, DB: db, SQL: sql, Affected: res.AffectedRows}
 	if res.Resultset != nil {
 		c.Rows = len(res.Values)
